@@ -1,0 +1,49 @@
+//go:build verif
+
+package lungo
+
+import "sync/atomic"
+
+// VerifHook is the signature of the callback installed with SetVerifHook.
+type VerifHook func(point string, obj interface{})
+
+var verifHook atomic.Pointer[VerifHook]
+
+// SetVerifHook installs (or with nil removes) the callback that is invoked at
+// every verification point. It is only available with the "verif" build tag.
+func SetVerifHook(fn VerifHook) {
+	if fn == nil {
+		verifHook.Store(nil)
+		return
+	}
+	verifHook.Store(&fn)
+}
+
+func verifPoint(point string, obj interface{}) {
+	if fn := verifHook.Load(); fn != nil {
+		(*fn)(point, obj)
+	}
+}
+
+// VerifState reports the number of free writer tokens, whether a write
+// transaction is registered, whether the engine is alive and the number of
+// registered streams.
+func (e *Engine) VerifState() (tokenFree int, txnActive, alive bool, streams int) {
+	e.mutex.Lock()
+	defer e.mutex.Unlock()
+	return e.token.VerifFree(), e.txn != nil, e.tomb.Alive(), len(e.streams)
+}
+
+// VerifSignalPending reports the number of pending wake-up signals.
+func (s *Stream) VerifSignalPending() int {
+	s.mutex.Lock()
+	defer s.mutex.Unlock()
+	return len(s.signal)
+}
+
+// VerifState reports the session flags.
+func (s *Session) VerifState() (starting, hasTxn, ended bool) {
+	s.mutex.Lock()
+	defer s.mutex.Unlock()
+	return s.starting, s.txn != nil, s.ended
+}
